@@ -18,6 +18,9 @@ package common
 //@   ensures [member-form] forall e: T :: member(e, r0) <==> member(e, target)
 //@   ensures [size] len(r0) <= len(target) && (len(target) > 0 ==> len(r0) > 0)
 //@   loop 0 invariant forall e: T :: has(s, e) <==> (exists k :: 0 <= k && k < $i && target[k] == e)
+//@   -- the same in matching-friendly form (for the member-form postcondition)
+//@   loop 0 invariant [in-map] forall k :: 0 <= k && k < $i ==> has(s, target[k])
+//@   loop 0 invariant [from-target] forall e: T :: has(s, e) ==> member(e, target)
 //@   loop 0 invariant [size] len(s) <= $i && ($i > 0 ==> len(s) > 0)
 //@   loop 1 invariant len(r) == $n && (forall k :: 0 <= k && k < $n ==> r[k] == $key(k))
 //@ end
@@ -48,7 +51,11 @@ package common
 //@   ensures forall e: T :: in(e, r0) <==> (in(e, l1) || in(e, l2))
 //@   ensures [member-form] forall e: T :: member(e, r0) <==> (member(e, l1) || member(e, l2))
 //@   loop 0 invariant forall e: T :: has(s, e) <==> (exists k :: 0 <= k && k < $i && l1[k] == e)
+//@   loop 0 invariant [in-map] forall k :: 0 <= k && k < $i ==> has(s, l1[k])
+//@   loop 0 invariant [from-lists] forall e: T :: has(s, e) ==> member(e, l1)
 //@   loop 1 invariant forall e: T :: has(s, e) <==> (in(e, l1) || (exists k :: 0 <= k && k < $i && l2[k] == e))
+//@   loop 1 invariant [in-map] (forall k :: 0 <= k && k < len(l1) ==> has(s, l1[k])) && (forall k :: 0 <= k && k < $i ==> has(s, l2[k]))
+//@   loop 1 invariant [from-lists] forall e: T :: has(s, e) ==> (member(e, l1) || member(e, l2))
 //@   loop 2 invariant len(r) == $n && (forall k :: 0 <= k && k < $n ==> r[k] == $key(k))
 //@ end
 
